@@ -117,7 +117,7 @@ def _run(tier, seed, replay=None):
         "traces_validated_against_impl": ex.get("status_files", 0) if tv.get("status_file_steps", {}).get("accepted") else 0, "crash_trace_validation": tv,
     }
     return v.finish("fault_enumeration", cov, assumptions=[
-        "crash = SIGKILL of one process (daemon or runner) at a hook-defined point between two file-system operations; the file system itself is not "
+        "crash = SIGKILL of one process (daemon or runner; both together in two double-kill experiments) at a hook-defined point between two file-system operations; the file system itself is not "
         "crashed (no lost page cache, no reordering of completed system calls)",
         "workloads: local command units {finish, long-running, cancel, release} and a remote unit submitted on n1 and executed by a second real daemon n2 "
         "(crash points of n1 enumerated; n2 killed while the unit runs in one scripted scenario); crash points inside remote_work.go itself do not exist (file not owned)",
